@@ -1,4 +1,5 @@
 import BqVerif.Model.Cost
+import BqVerif.Model.CostCirc
 import BqVerif.Drivers.Util
 import BqVerif.Drivers.Circ
 /-
@@ -14,11 +15,18 @@ Numbers are exact rationals `p/q` (or integers); a complex entry is two consecut
       -> t.re t.im | cost | grad_1 ... | residuals | sum residuals | Jcol_1 | ...
   argmin c_1 c_2 ...                         sorted(range, key=cost)[0]      -> index | raise
   select vu,lo vu,lo ... | auto / given 0|1 / name <s> / other   -> given | entry i | err value|type
+  select ... | <method> | tdim cdim          the same followed by the dimension guard of e23425b
+  xcirc U|S|Y nd | radixes | lam.re lam.im | - or a b ca cb | - or cols | op | op ...
+      op = loc(q,q,..) np  G entries  dG_1 entries ... dG_np entries      (exact gate matrices)
+      the circuit unitary, its first nd derivatives and the target are computed by the model:
+      U = product of the embedded gate matrices (Model/CostCirc.lean), W = lam*U [Givens-mixed],
+      target = W (U), W|0> (S), the listed columns of W (Y)
+      -> U entries # W entries # <ucost or state reply> # <resid reply>
   setparams <circuit> | p_1 p_2 ...          -> <circuit> | err value
   params <circuit>                           -> n | p_1 p_2 ...
 -/
 namespace BqVerif.Drv.Cost
-open BqVerif.NumC19 BqVerif.Cost BqVerif.Drv
+open BqVerif.NumC19 BqVerif.Cost BqVerif.Drv BqVerif.CostCirc
 
 def parseRat (s : String) : Option Rat :=
   match s.splitOn "/" with
@@ -38,38 +46,98 @@ def toGQs : List Rat → List GQ
   | a :: b :: t => ⟨a, b⟩ :: toGQs t
   | _ => []
 
-def parseMat (n m : Nat) (ts : List String) : Option (Mat n m) := do
+def parseMat (n m : Nat) (ts : List String) : Option (Dense n m) := do
   let rs ← ts.mapM parseRat
   if rs.length != 2 * n * m then none else
-  some (Mat.ofList n m (toGQs rs))
+  some (Dense.ofList n m (toGQs rs))
 
 def showGQ (z : GQ) : String := s!"{showRat z.re} {showRat z.im}"
 
 def bar (l : List String) : String := " | ".intercalate l
 
+def outU {n : Nat} (K : Rat) (T U : Mat n n) (dUs : List (Mat n n)) : String :=
+  let t := hsInner T U
+  let gn := dUs.map (fun dU => gradNum t (hsInner T dU))
+  bar [showGQ t, showRat t.absSq, showRat (costGap t K), showRats gn]
+
+def outR {n : Nat} (T U : Mat n n) (dUs : List (Mat n n)) : String :=
+  let r := residuals T U
+  bar ([showRats r, showRat (sumSq r)] ++ dUs.map (fun dU => showRats (residualsJac T dU)))
+
+def outS {n : Nat} (psi u0 : Mat n 1) (dus : List (Mat n 1)) : String :=
+  let t := stateInner psi u0
+  let gs := dus.map (fun du => stateGrad t (stateInner psi du))
+  let r := stateResiduals psi u0
+  bar ([showGQ t, showRat (stateCost psi u0), showRats gs, showRats r, showRat (sumL r)]
+    ++ dus.map (fun du => showRats (stateResidualsJac psi u0 du)))
+
 def stepU (n : Nat) (K : Rat) (Tt Ut : List String) (dUs : List (List String)) : String :=
   match parseMat n n Tt, parseMat n n Ut, dUs.mapM (parseMat n n) with
-  | some T, some U, some dUs =>
-    let t := hsInner T U
-    let gn := dUs.map (fun dU => gradNum t (hsInner T dU))
-    bar [showGQ t, showRat t.absSq, showRat (costGap t K), showRats gn]
+  | some T, some U, some dUs => outU K T.get U.get (dUs.map (·.get))
   | _, _, _ => "bad-op"
 
 def stepR (n : Nat) (Tt Ut : List String) (dUs : List (List String)) : String :=
   match parseMat n n Tt, parseMat n n Ut, dUs.mapM (parseMat n n) with
-  | some T, some U, some dUs =>
-    let r := residuals T U
-    bar ([showRats r, showRat (sumSq r)] ++ dUs.map (fun dU => showRats (residualsJac T dU)))
+  | some T, some U, some dUs => outR T.get U.get (dUs.map (·.get))
   | _, _, _ => "bad-op"
 
 def stepS (n : Nat) (pt ut : List String) (dus : List (List String)) : String :=
   match parseMat n 1 pt, parseMat n 1 ut, dus.mapM (parseMat n 1) with
-  | some psi, some u0, some dus =>
-    let t := stateInner psi u0
-    let gs := dus.map (fun du => stateGrad t (stateInner psi du))
-    let r := stateResiduals psi u0
-    bar ([showGQ t, showRat (stateCost psi u0), showRats gs, showRats r, showRat (sumL r)]
-      ++ dus.map (fun du => showRats (stateResidualsJac psi u0 du)))
+  | some psi, some u0, some dus => outS psi.get u0.get (dus.map (·.get))
+  | _, _, _ => "bad-op"
+
+/-! ### exact circuits -/
+
+def chunk (k : Nat) : Nat → List GQ → List (List GQ)
+  | 0, _ => []
+  | m + 1, l => l.take k :: chunk k m (l.drop k)
+
+def parseXOp (radixes : List Nat) (ts : List String) : Option XOp :=
+  match ts with
+  | locT :: npT :: ents => do
+    let loc ← Circ.splitNats locT
+    let np ← npT.toNat?
+    let rs ← ents.mapM parseRat
+    let d := Tensor.prod (loc.map (radixes.getD · 0))
+    if rs.length != 2 * d * d * (1 + np) then none else
+    let ms := (chunk (d * d) (1 + np) (toGQs rs)).map (fun l => (⟨[d, d], l.toArray⟩ : Tensor.T GQ))
+    match ms with
+    | g :: gs => some ⟨loc, g, gs⟩
+    | [] => none
+  | _ => none
+
+def showMat {n m : Nat} (A : Mat n m) : String := " ".intercalate (A.entries.map showGQ)
+
+def stepX (kind : String) (nd : Nat) (radT lamT pertT colsT : List String)
+    (opsT : List (List String)) : String :=
+  match nats radT, lamT.mapM parseRat, opsT.mapM (parseXOp ((nats radT).getD [])) with
+  | some radixes, some [lr, li], some ops =>
+    let pert : Option (Option (Rat × Rat × Nat × Nat)) := match pertT with
+      | ["-"] => some none
+      | [a, b, ca, cb] => (match parseRat a, parseRat b, ca.toNat?, cb.toNat? with
+        | some a, some b, some ca, some cb => some (some (a, b, ca, cb))
+        | _, _, _, _ => none)
+      | _ => none
+    let cols : Option (List Nat) := match colsT with
+      | ["-"] => some []
+      | cs => nats cs
+    match pert, cols, unitary radixes ops, grads radixes ops nd with
+    | some pert, some cols, .ok Ut, .ok dUt =>
+      let n := Tensor.prod radixes
+      let Ud : Dense n n := toDense n Ut
+      let dUd : List (Dense n n) := dUt.map (toDense n)
+      let Wd : Dense n n := Mat.freeze (targetOf ⟨lr, li⟩ Ud.get pert)
+      let (r1, r2) : String × String :=
+        if kind == "S" then
+          let c0 (A : Dense n n) : Dense n 1 := Mat.freeze (col0 A.get)
+          let (p, u, ds) := (c0 Wd, c0 Ud, dUd.map c0)
+          (outS p.get u.get (ds.map (·.get)), "")
+        else
+          let Td : Dense n n := if kind == "Y" then Mat.freeze (keepCols Wd.get cols) else Wd
+          let K : Rat := if kind == "Y" then (cols.length : Nat) else (n : Nat)
+          (outU K Td.get Ud.get (dUd.map (·.get)), outR Td.get Ud.get (dUd.map (·.get)))
+      " # ".intercalate [showMat Ud.get, showMat Wd.get, r1, r2]
+    | _, _, _, _ => "bad-op"
   | _, _, _ => "bad-op"
 
 def parseCaps (s : String) : Option GateCaps :=
@@ -99,6 +167,10 @@ def step (line : String) : String :=
     (match n.toNat? with
      | some n => stepS n pt ut dus
      | _ => "bad-op")
+  | ["xcirc", kind, nd] :: radT :: lamT :: pertT :: colsT :: opsT =>
+    (match nd.toNat? with
+     | some nd => stepX kind nd radT lamT pertT colsT opsT
+     | none => "bad-op")
   | ["argmin" :: cs] =>
     (match cs.mapM parseRat with
      | some cs => (match multiStartIdx cs with | some i => toString i | none => "raise")
@@ -117,6 +189,20 @@ def step (line : String) : String :=
         | some meth => showSel (selectInst assumedOrder gs meth)
         | none => "bad-op")
      | none => "bad-op")
+  | [ "select" :: gs, m, [td, cd]] =>
+    (match gs.mapM parseCaps, td.toNat?, cd.toNat? with
+     | some gs, some td, some cd =>
+       let meth : Option Method := match m with
+         | ["auto"] => some .auto
+         | ["given", b] => some (.given (b != "0"))
+         | ["name"] => some (.byName "")
+         | ["name", s] => some (.byName s)
+         | ["other"] => some .other
+         | _ => none
+       (match meth with
+        | some meth => showSel (selectGuarded assumedOrder gs meth td cd)
+        | none => "bad-op")
+     | _, _, _ => "bad-op")
   | [["setparams", c], ps] =>
     (match Circ.parseCirc c, ints ps with
      | some c, some ps =>
